@@ -113,13 +113,6 @@ theorem C13_trace (c : Cfg) (hq : Quiet c) (hacc : argsAccepted c.iv c.to = true
       · exact Or.inr h
       · exact Or.inl h
 
-/-- the Spec trace of a connection starts with the opening callback (when it is set) at the tick of the dial -/
-theorem expectedConn_head (has : Cb → Bool) (plan : Cb → List Act) (cnt : Cb → Nat) (t0 : Nat) (first : Cb)
-    (evs : List TEv) (h : has first = true) :
-    ∃ rest, expectedConn has plan cnt t0 first evs = (t0, .cb first []) :: rest := by
-  simp only [expectedConn, h, ↓reduceIte, List.singleton_append, reportTrace]
-  split <;> exact ⟨_, rfl⟩
-
 /-- **C13_open_first** — on_open (when set) is the first callback of the connection and fires at the
     tick the connection is established, before any delivery. -/
 theorem C13_open_first (c : Cfg) (hq : Quiet c) (hacc : argsAccepted c.iv c.to = true) (hiv : c.iv = 0)
